@@ -216,3 +216,21 @@ pub fn scratch(tag: &str) -> PathBuf {
     fs::create_dir_all(&p).expect("scratch");
     p
 }
+
+/// Entry point shared by every driver binary: `<bin> <quick|thorough> <seed> <outdir>`.
+pub fn main_with(property: &str, f: impl FnOnce(&mut Run, &mut Rng)) {
+    let args: Vec<String> = std::env::args().collect();
+    if args.len() < 4 {
+        eprintln!("usage: {} <quick|thorough> <seed> <outdir>", args[0]);
+        std::process::exit(2);
+    }
+    let tier = args[1].as_str();
+    let seed: u64 = args[2].parse().expect("seed");
+    let out = PathBuf::from(&args[3]);
+    // panics inside guarded sections are data; keep stderr quiet
+    std::panic::set_hook(Box::new(|_| {}));
+    let mut run = Run::new(property, tier, seed);
+    let mut rng = Rng::new(seed);
+    f(&mut run, &mut rng);
+    run.write(&out).expect("write outputs");
+}
